@@ -448,3 +448,11 @@ package encoder
 //@   loop 3: invariant forall k :: 0 <= k && k < len(buf) - old(len(buf)) ==> buf[old(len(buf))+k] >= 32 && buf[old(len(buf))+k] != '<' && buf[old(len(buf))+k] != '>' && buf[old(len(buf))+k] != '&'
 //@   loop 3: invariant forall k :: 0 <= k && k < len(s) ==> s[k] == old(s[k])
 //@   loop 3: decreases len(s) - j
+
+// ---------------------------------------------------------------- per-call state of the pooled context (C11)
+//@ func (*RuntimeContext).Init(c, p, codelen) ()
+//@   props C11 C06
+//@   requires c != nil && codelen >= 1
+//@   ensures len(c.Ptrs) >= codelen && c.Ptrs[0] == p
+//@   ensures len(c.KeepRefs) == 0 && len(c.SeenPtr) == 0 && c.BaseIndent == 0
+//@   assigns RuntimeContext.Ptrs, RuntimeContext.KeepRefs, RuntimeContext.SeenPtr, RuntimeContext.BaseIndent, class M
